@@ -33,6 +33,32 @@ func runC09(c *Ctx) {
 	c09R6(c)
 	c09R7(c)
 	c09R8(c)
+	c08R5As(c, c.R.Rule("R9", "K3 (= C08.R5) v1: a processor reply that changes the record position — to anything, including an empty one — is refused: the record is replaced and sent on only on the bytes.Equal(processed position, original position) edge", 2))
+	c09R10(c)
+}
+
+// c09R10: only the source task's read may end a pass quietly.
+func c09R10(c *Ctx) {
+	r := c.R.Rule("R10", "K3 v2 graceful-read classification: in Worker.doTaskAttempt a task error is turned into the (possibly nil) context error only for the first task of the chain (the source read) — a destination or processor error wrapping context.Canceled is still an error", 1)
+	fn := c.SSA(r, pFunnel, "(*Worker).doTaskAttempt")
+	isFirst := c.Fn(r, pFunnel, "(*TaskNode).IsFirst")
+	ctxErr := c.W.ExtMethod("context", "Context", "Err")
+	if fn == nil || isFirst == nil || ctxErr == nil {
+		return
+	}
+	g := kit.NewGates().AddEdges(condEdgesOfCalls(fn, Set(isFirst), true), "taskNode.IsFirst()")
+	var rets []ssa.Instruction
+	for _, ret := range kit.Returns(fn) {
+		v := kit.RetVal(ret, len(ret.Results)-1)
+		if call, ok := v.(*ssa.Call); ok && call.Call.IsInvoke() && call.Call.Method.Name() == "Err" && strings.HasSuffix(call.Call.Value.Type().String(), "context.Context") {
+			rets = append(rets, ret)
+		}
+	}
+	if len(rets) == 0 {
+		c.R.Fail(r, "doTaskAttempt: graceful-read return", c.Pos(fn.Pos()), "no `return ctx.Err()` found")
+		return
+	}
+	c.Dominated(r, "doTaskAttempt: `return ctx.Err()` only for the first task", rets, g, "the taskNode.IsFirst() edge")
 }
 
 // c09R8: whatever a standalone (WASM) processor module answers, the engine side
@@ -232,7 +258,10 @@ func c09R1(c *Ctx) {
 }
 
 func c09R2(c *Ctx) {
-	r := c.R.Rule("R2", "K13 destination acks (v1): DestinationAckerNode.worker indexes acks[0] only on an edge where that ack batch is known to be non-empty", 1)
+	c09R2As(c, c.R.Rule("R2", "K13 destination acks (v1): DestinationAckerNode.worker indexes acks[0] only on an edge where that ack batch is known to be non-empty", 1))
+}
+
+func c09R2As(c *Ctx, r string) {
 	fn := c.SSA(r, pStream, "(*DestinationAckerNode).worker")
 	if fn == nil {
 		return
